@@ -193,7 +193,7 @@ Qed.
 (* ---------- the simulation statement ---------- *)
 Definition sim (m : mode) (addr len : Z) (i : instr) : Prop :=
   forall s st s' ip, wf m s -> emb m s st -> step m (addr + len) i s = XNext s' ip ->
-  exists g, mirror_instr m addr i = Some (Ok g) /\
+  exists g, mirror_instr m addr len i = Some (Ok g) /\
   exists st', run_instr 600 g (mirror_succ m addr len i) addr st = RunOk st' (Some ip) /\ emb m s' st' /\ wf m s'.
 
 Lemma kDF_not_reg n : reg_name_ok n = true -> (n, @None N) <> kDF.
